@@ -55,6 +55,12 @@ NEEDS = {
     'C07-agent5': ('C07', 'fast modal_axes keeps counting total wavenumbers into the padding instead of zero-filling it: needs a layout padded along l (y-sharded mesh or base_shape_multiple not dividing L) AND a consumer normalising by the largest wavenumber / eigenvalue (exponential / diffusion filters)', ['C07', 'C01']),
     'C09-agent5': ('C09', 'same site as C07-agent5 (padded tail of the total-wavenumber axis not zero): Grid operations agree on resolved entries; needs non-default base_shape_multiple (or a mesh) with L not a multiple AND a filter that reads the whole wavenumber axis', ['C09', 'C01']),
     'C13-agent5': ('C13', 'upward cumulative sigma integral computed by flipping x but not the layer thicknesses: needs downward=False (non-default) AND layer thicknesses that are not mirror-symmetric', ['C13']),
+    'C03-agent6': ('C03', 'TimeReversedImExODE.implicit_inverse forwards the step size with the wrong sign: unwrapped equations unaffected; needs an equation with non-trivial implicit terms wrapped in TimeReversedImExODE (the backward leg of digital filter initialisation)', ['C03']),
+    'C08-agent6': ('C08', 'upwind_vertical_advection uses jax.nn.relu instead of maximum / minimum: primal identical, derivative at a tie is 0 instead of 1/2; needs the non-default upwind scheme AND a base state with sigma_dot exactly zero (rest / non-divergent over uniform ps)', ['C08']),
+    'C10-agent6': ('C10', 'shallow-water stacked transform un-flattened layer-major after a field-major concatenation: identical for one layer; needs >= 2 layers; breaks mirror (not rotation) equivariance', ['C10']),
+    'C11-agent6': ('C11', 'moist divergence_tendency_due_to_humidity takes cos_lat_grad(q) with the default clip=True: the humidity term stops being an exact discrete divergence, the global mean of divergence drifts; needs the moist class, non-uniform surface pressure AND humidity with energy at the highest retained wavenumber', ['C11']),
+    'C12-agent6': ('C12', 'shallow-water coriolis_parameter returns the bare sin(lat) helper (hard-codes 2 Omega = 1): needs the shallow-water equations, a non-zero flow AND a scale whose time unit differs from 1 / (2 Omega)', ['C12']),
+    'C20-agent6': ('C20', 'Held-Suarez explicit_terms calls get_cos_lat_vector with its default clip=True instead of going through compute_diagnostic_state (clip=False): needs a state with energy in the highest retained total wavenumber', ['C20']),
     'C14-agent3': ('C14', 'trajectory_from_step returns the raw carry instead of post_process_fn(carry) as the frame when start_with_input=True: invisible with the default start_with_input=False and whenever post_process_fn is the identity; needs start_with_input=True AND a non-identity post_process_fn', ['C14']),
     'C16-agent3': ('C16', 'periodic longitude cell bounds computed from roll(x, -+1) with the period added only at the array end instead of aligning each neighbour to its point: identical when the longitudes are increasing after `% period`; needs a grid whose longitude_offset is negative or exceeds one cell width (0 / 2 pi seam inside the array)', ['C16']),
     'C17-agent3': ('C17', '_dot_interp (matrix / accelerator path of interp) loses the clip of the searchsorted index: needs that path to be executed (TPU dispatch or a direct call; CPU tests never run it) AND a query exactly equal to the last source node, where all weights become zero and the result is 0 instead of fp[-1]', ['C17']),
